@@ -31,6 +31,7 @@ func (mgr *Manager) AddShield(id key.Shield, shield info.Shield) {
 			baseHP += v * maxShield
 		}
 	}
+	baseHP += shield.ShieldValue
 
 	// Compute final shieldHP using shield HP formula
 	shieldHP := baseHP * (1 + source.GetProperty(prop.ShieldBoost)) * (1 + target.GetProperty(prop.ShieldTaken))
